@@ -460,7 +460,7 @@ func TestZZVerif(t *testing.T) {
 	}
 	time.Sleep(200 * time.Millisecond)
 
-	n := map[string][2]int{"C14": {1500, 40000}, "C15": {1200, 30000}}[prop]
+	n := map[string][2]int{"C14": {1500, 20000}, "C15": {1200, 30000}}[prop]
 	total := n[0]
 	if tier == "thorough" {
 		total = n[1]
